@@ -213,16 +213,16 @@ class LinkContainer(Container):
         if isinstance(identifier, int):
             return super(LinkContainer, self).__getitem__(identifier)
         else:
-            if util.is_uuid(identifier):
+            if util.is_uuid(identifier) and identifier in self._backend:
                 # For LinkContainer, name is id
                 item = self._backend.get_by_name(identifier)
                 return self._inst_item(item)
-            else:
-                for grp in self._backend:
-                    if identifier == grp.get_attr("name"):
-                        return self._inst_item(grp)
+            # not an id, or no linked entity with that id: it may be a name
+            for grp in self._backend:
+                if identifier == grp.get_attr("name"):
+                    return self._inst_item(grp)
 
-                raise KeyError("Item not found '{}'".format(identifier))
+            raise KeyError("Item not found '{}'".format(identifier))
 
     def __contains__(self, item):
         # need to redefine because of id indexing/linking
@@ -235,8 +235,8 @@ class LinkContainer(Container):
                     self._itemclass.__name__)
             )
 
-        if util.is_uuid(item):
-            return item in self._backend
+        if util.is_uuid(item) and item in self._backend:
+            return True
 
         # assume it's a name and scan through LinkContainer
         for grp in self._backend:
